@@ -54,6 +54,7 @@ type Frame struct {
 	callOrd  map[string]int
 	entryAlloc Term
 	up       *Frame
+	siteOrd  map[ssa.Instruction]int
 	isInit   bool
 }
 
